@@ -103,7 +103,13 @@ class Gen:
             return Node("boolop", op=self.rng.choice(["and", "or"]), vs=[self.atom(), self.atom()])
         if depth < 2 and r < 0.45:
             v = self.value(depth)
-            return v if v.k != "const" else self.atom()
+            if v.k == "const":
+                return self.atom()
+            if has_boolop(v):
+                if "boolop_in_operand" not in self.feats:
+                    return self.atom()
+                self.used.add("boolop_in_operand")
+            return v
         return self.atom()
 
     def test(self) -> Node:
@@ -126,7 +132,8 @@ class Gen:
             vs = []
             for _ in range(n):
                 r = self.rng.random()
-                if r < 0.25 and "boolop_multi" in self.feats:
+                if r < 0.25 and "boolop_nested" in self.feats:
+                    self.used.add("boolop_nested")
                     vs.append(Node("boolop", op=self.rng.choice(["and", "or"]), vs=[self.atom(), self.atom()]))
                 elif r < 0.5:
                     vs.append(Node("cmp", l=self.atom(), rs=[self.atom()]))
@@ -143,7 +150,13 @@ class Gen:
             return Node("assign", t=self.rng.choice(VARS), v=self.value())
         if r < 0.6 and "aug" in self.feats:
             self.used.add("aug")
-            return Node("aug", t=self.rng.choice(VARS[:2]), v=self.value())
+            v = self.value()
+            if has_boolop(v):      # the target of an in-place operator is read before its right operand
+                if "boolop_in_operand" not in self.feats:
+                    v = self.atom()
+                else:
+                    self.used.add("boolop_in_operand")
+            return Node("aug", t=self.rng.choice(VARS[:2]), v=v)
         if r < 0.9:
             return Node("expr", v=Node("ev", arg=self.fresh(), args=[self.operand(1) for _ in range(self.rng.randint(0, 2))]))
         return Node("pass")
@@ -218,6 +231,19 @@ class Gen:
         if "live_loop_var" in self.feats:
             pass
         return Program(body, sorted(self.used | {"core"}))
+
+
+def has_boolop(n: Any) -> bool:
+    if not isinstance(n, Node):
+        return False
+    if n.k == "boolop":
+        return True
+    for v in n.__dict__.values():
+        if isinstance(v, Node) and has_boolop(v):
+            return True
+        if isinstance(v, list) and any(has_boolop(x) for x in v):
+            return True
+    return False
 
 
 # -------------------------------------------------------------------- rendering
@@ -367,10 +393,10 @@ class Program:
 
 
 FEATURES = ["aug", "loop_else", "for", "for_else", "boolop_test", "boolop_value", "boolop_multi", "test_call", "test_not", "test_attr",
-            "test_subscr", "test_t", "boolop_in_operand", "chain_cmp", "binop", "unary", "call_value", "cmp_value", "attr_value", "dead_code",
+            "test_subscr", "test_t", "boolop_in_operand", "boolop_nested", "chain_cmp", "binop", "unary", "call_value", "cmp_value", "attr_value", "dead_code",
             "empty_arms", "loop_first"]
 # features whose divergences are recorded as known findings (redesign needed) are kept out of the default mix
-DEFAULT_OFF = {"boolop_in_operand"}
+DEFAULT_OFF = {"boolop_in_operand", "boolop_nested"}
 
 
 def generate(seed: int, count: int, feats: Optional[Set[str]] = None, max_depth: int = 3, max_stmts: int = 3) -> List[Program]:
@@ -382,6 +408,8 @@ def generate(seed: int, count: int, feats: Optional[Set[str]] = None, max_depth:
         tries += 1
         if feats is None:
             fs = {f for f in FEATURES if rng.random() < 0.35 and f not in DEFAULT_OFF}
+            if rng.random() < 0.12:      # a small share of programs exercises the documented evaluation-order limitation
+                fs |= {"boolop_in_operand", "boolop_nested", "boolop_test", "boolop_value"}
         else:
             fs = set(feats)
         p = Gen(rng, fs, max_depth=rng.randint(1, max_depth), max_stmts=rng.randint(1, max_stmts)).program()
